@@ -472,7 +472,7 @@ func c16Alphabet() []pMsg {
 		{Cmd: "file-key", Args: []string{"0"}, Body: b16},
 		{Cmd: "file-key", Args: []string{"0"}},
 		{Cmd: "file-key", Args: []string{"1"}, Body: b16},
-		{Cmd: "error", Args: []string{"internal"}, Body: []byte("boom from plugin")},
+		{Cmd: "error", Args: []string{"internal"}, Body: []byte("boom from plugin: 100% sure, %s")},
 		{Cmd: "msg", Body: []byte("hello")},
 		{Cmd: "request-secret", Body: []byte("pin")},
 		{Cmd: "confirm", Args: []string{refage.B64([]byte("yes")), refage.B64([]byte("no"))}, Body: []byte("sure?")},
@@ -520,7 +520,7 @@ func c16GenMsg(t *rapid.T) pMsg {
 		}
 		return pMsg{Cmd: "file-key", Args: args, Body: b}
 	case "error":
-		return pMsg{Cmd: "error", Args: rapid.SampledFrom([][]string{{"internal"}, {"recipient", "0"}, {"identity", "0"}, {"stanza", "0", "0"}, nil}).Draw(t, "eargs"), Body: []byte("plugin says: " + rapid.SampledFrom([]string{"boom", "no token", "x"}).Draw(t, "etext"))}
+		return pMsg{Cmd: "error", Args: rapid.SampledFrom([][]string{{"internal"}, {"recipient", "0"}, {"identity", "0"}, {"stanza", "0", "0"}, nil}).Draw(t, "eargs"), Body: []byte("plugin says: " + rapid.SampledFrom([]string{"boom", "no token", "x", "100% of the retries failed", "%s %d %v %!", "%"}).Draw(t, "etext"))}
 	case "msg":
 		return pMsg{Cmd: "msg", Body: []byte("message")}
 	case "request-public":
